@@ -293,6 +293,8 @@ impl SlowDir {
 
 /// A point of the slow-reader sub-matrix: the reading end of `dir` waits `stall_s` seconds (from
 /// the moment its connection exists) before its first read, then reads to the end like everywhere.
+/// (The long payloads are `payload(len, conn, dir)` like all others: the same stream per (conn, dir)
+/// cut at another length, so payloads that differ between connections at 4099 bytes differ here.)
 #[derive(Clone, Copy, Debug, PartialEq, Eq, Hash)]
 pub struct Slow {
     pub dir: SlowDir,
@@ -389,7 +391,7 @@ impl TcpCase {
     }
     /// Is this a point of the slow-reader sub-matrix as `c01.rs::slow_matrix` builds them?
     fn slow_well_formed(&self) -> bool {
-        self.slow.is_none_or(|s| s.dir.orders().contains(&self.order) && self.dual.is_none() && !self.entry.v6literal() && self.conc >= 1)
+        self.slow.is_none_or(|s| s.dir.orders().contains(&self.order) && self.dual.is_none() && !self.entry.v6literal())
     }
 }
 
